@@ -8,7 +8,8 @@
 //!   --env-clear / --env K=V   environment of the tracee
 //!   --spec FILE           raw exec spec: lines `path <hex>`, `arg <hex>`, `env <hex>` (bytes, no NUL)
 //!                         (overrides PROG/ARGS/--env; allows empty argv, non-UTF-8, duplicates)
-//!   --entries             also log syscall entries ("s" lines), not only exits
+//!   --entries             also log syscall entries ("s" lines), not only exits (exit/exit_group entries
+//!                         are always logged: they have no exit stop)
 //!   --scope-markers       log syscalls only between BEGIN and END markers of the issuing process
 //!   --inject S:C:SCOPE:NR:K:RET[:COUNT]   when a BEGIN marker (scenario S, case C; C=* any) is seen, arm:
 //!                         in SCOPE (0 thread,1 process,2 children forked later,3 all) the K-th (0-based)
@@ -603,7 +604,7 @@ fn main() {
                         }
                         t.pending_ret = Some(ret);
                     }
-                    if log_entries && (!scope_markers || in_scope.get(&tg).copied().unwrap_or(0) > 0 || scoped_child(&tasks, &in_scope, tid)) {
+                    if (log_entries || nr == 60 || nr == 231) && (!scope_markers || in_scope.get(&tg).copied().unwrap_or(0) > 0 || scoped_child(&tasks, &in_scope, tid)) {
                         logger.lock().unwrap().line(
                             's',
                             &format!(
